@@ -3,3 +3,4 @@ CONSTANTS
   MaxLen = 2
   SetMax = 4
 INVARIANT SetAlgebra
+INVARIANT ExtensionSetLaws
